@@ -311,10 +311,13 @@ func c14Atoms() []c14Atom {
 		add(st("style", "display: inline-block"))
 		add(st("style", "background:url(data:image/png;base64,AAAA); color: blue"))
 		add(st("data-j", ""))
+		// values that already hold the text of an entity: written with one more level of escaping, read back as they are
+		add(st("data-e", `show &lt; as text, R&amp;D, &#34;q&#34;`))
 		add(c14Attr{K: "static", N: "disabled", Bare: true})
 		// interpolated
 		add(c14Attr{K: "interp", N: "title", S: "a {{ v$ }} b"}, "v$", tvS("dyn"))
 		add(c14Attr{K: "interp", N: "data-k", S: "{{ v$ }}"}, "v$", tvI(3))
+		add(c14Attr{K: "interp", N: "title", S: "a {{ v$ }} b"}, "v$", tvS("x &amp; y &#39;z&#39;"))
 		add(c14Attr{K: "interp", N: "class", S: "s1 c-{{ v$ }}"}, "v$", tvS("dyn"))
 		add(c14Attr{K: "interp", N: "style", S: "color: {{ v$ }}"}, "v$", tvS("green"))
 		add(c14Attr{K: "interp", N: "style", S: "{{ v$ }}"}, "v$", tvS("color: green"))
@@ -333,6 +336,7 @@ func c14Atoms() []c14Atom {
 		add(bd(":", "data-b", c14EVar("v$")), "v$", TV{K: "uint16"})
 		// bound, colliding with the static vocabulary
 		add(bd(":", "title", c14EVar("v$")), "v$", tvS("bound title"))
+		add(bd(":", "title", c14EVar("v$")), "v$", tvS("Tom &amp; Jerry &lt;b&gt; &#34;q&#34;"))
 		add(bd(":", "title", c14EVar("v$")), "v$", tvB(false))
 		add(bd("v-bind:", "id", c14EVar("v$")), "v$", tvI(42))
 		add(bd(":", "data-k", c14EPath("v$")), "v$", tvS(`x"y&z`))
@@ -393,6 +397,7 @@ func c14Atoms() []c14Atom {
 		add(br("v-for", "i in list"))
 		add(br("v-show", "  sp "))
 		add(br(":class", "{a: b}"))
+		add(br("data-raw", "x &amp;amp; y &gt; z"))
 		add(br("v-html", "{{ v$ }}"), "v$", tvS("dyn"))
 		// directives
 		add(c14Attr{K: "dir", N: "v-if", E: c14EVar("v$")}, "v$", tvB(true))
